@@ -33,13 +33,16 @@ def gen_specs(rng, parallel=False):
         exe = "exe%d" % e
         exe_build = rng.choice([None] + TEXTS)
         exe_path = rng.choice(["/x", "/y"])
+        exe_env = rng.choice([None, None, {"MODE": "exe-%d" % e}])
         for su in range(rng.randint(1, 2 if nexe > 1 else 3)):
             suite = "S%d_%s" % (su, exe)
             suite_build = rng.choice([None, exe_build] + TEXTS)
             suite_loc = rng.choice(["/x", "/y", exe_path])
+            suite_env = rng.choice([None, None, {"MODE": "suite-%d" % su, "X": "1"}])
             for b in range(rng.randint(1, 2)):
                 specs.append(mh.Spec("B%d" % k, exe=exe, exe_path=exe_path, exe_build=exe_build, suite=suite, suite_build=suite_build,
-                                     suite_loc=suite_loc, N=rng.randint(1, 2), retries=rng.randint(0, 1),
+                                     suite_loc=suite_loc, exe_env=exe_env, suite_env=suite_env,
+                                     bench_env=rng.choice([None, None, None, {"MODE": "bench-%d" % k}]), N=rng.randint(1, 2), retries=rng.randint(0, 1),
                                      script=[rng.choice(["ok", "ok", "ok", "exit", "unp"]) for _ in range(rng.randint(0, 2))],
                                      exclusive=(False if parallel else None)))
                 k += 1
@@ -118,12 +121,20 @@ def run(chk):
             if not oracle(chk, case, specs, obs, failing_rc, oserr, builds_on=not noB):
                 continue
             # in place, with the run's env
-            for (text, cwd), env in zip(obs.ses.builds, obs.ses.build_envs):
+            by_name = {s.name: s for s in specs}
+            trig = []
+            for e in obs.events:      # the run whose execute_run call was in progress when a build ran
+                if e[0] == "pick":
+                    cur = e[1]
+                elif e[0] == "build":
+                    trig.append(cur)
+            for (text, cwd), env, who in zip(obs.ses.builds, obs.ses.build_envs, trig):
                 if (text, cwd) not in ids:
                     chk.violation("C13 a build script runs in the directory of its executor / suite", case, sorted(ids), (text, cwd))
                     break
-                if env != {}:
-                    chk.violation("C13 a build script runs with the run's env and nothing else", case, {}, env)
+                if env != by_name[who].run_env():
+                    chk.violation("C13 a build script runs with the env of the run that needs it (and nothing else)", dict(case, run=who),
+                                  by_name[who].run_env(), env)
                     break
             order = obs.order
             idx = {nme: k for k, nme in enumerate(order)}
